@@ -175,3 +175,33 @@ for neg in (False, True):
 contract("parsers:DurationParser.parse", cases=PARSE_CASES, ensures=[], use_at_calls=False,
          note="designator forms on symbolic number spellings; regex matching by the lexing "
               "lemma (pyvc/textlex.py) on the real DURATION_REGEXES")
+
+
+# ---------------------------------------------------------------- the date-time-like spelling
+def dtl_case(style, with_time):
+    """P[YYYY]-[MM]-[DD]T[hh]:[mm]:[ss] (extended) / P[YYYY][MM][DD]T[hh][mm][ss] (basic)"""
+    from .parser_t4 import fld
+
+    def build(E, st):
+        sep, tsep = ("-", ":") if style == "extended" else ("", "")
+        ps = ["P", fld(E, st, "century", 2), fld(E, st, "year_of_century", 2), sep,
+              fld(E, st, "month_of_year", 2), sep, fld(E, st, "day_of_month", 2)]
+        if with_time:
+            ps += ["T", fld(E, st, "hour_of_day", 2), tsep, fld(E, st, "minute_of_hour", 2),
+                   tsep, fld(E, st, "second_of_minute", 2)]
+        return {"self": mk_parser(E, st), "expression": Text(ps).simplest()}
+    ens = ["fresh(result)", "result._weeks is None",
+           "result._years == 100 * fld('century') + fld('year_of_century')",
+           "result._months == fld('month_of_year')", "result._days == fld('day_of_month')"]
+    if with_time:
+        ens += ["result._hours == fld('hour_of_day')", "result._minutes == fld('minute_of_hour')",
+                "result._seconds == fld('second_of_minute')"]
+    else:
+        ens += ["result._hours == 0 and result._minutes == 0 and result._seconds == 0"]
+    return Case("datetime-like:%s%s" % (style[0], ":time" if with_time else ""), build,
+                ensures=ens)
+
+
+from . import REGISTRY as _R  # noqa
+_R["parsers:DurationParser.parse"].cases = list(_R["parsers:DurationParser.parse"].cases) + [
+    dtl_case(s_, t_) for s_ in ("extended", "basic") for t_ in (True, False)]
